@@ -226,6 +226,37 @@ def entails(facts, goal, depth=0):
     Disjunctive facts are handled by case split (bounded)."""
     if goal == TRUE:
         return True
+    if depth == 0 and any(x[0] in ('imin', 'isatsub') for x in subterms(goal)):
+        # minima and saturating differences of lengths with known lower bounds (`len ≥ 3`) are plain sums
+        try:
+            from .c04 import int_simplify
+            from ..terms import NF, subst_term
+            lower = {}
+            for f in facts:
+                if isinstance(f, tuple) and f and f[0] == 'icmp' and f[3][0] == 'ic' and f[2][0] == 'len':
+                    if f[1] == 'ge':
+                        lower[f[2]] = max(lower.get(f[2], 0), f[3][1])
+                    elif f[1] == 'gt':
+                        lower[f[2]] = max(lower.get(f[2], 0), f[3][1] + 1)
+                    elif f[1] == 'ne' and f[3][1] == 0:
+                        lower[f[2]] = max(lower.get(f[2], 0), 1)
+            if lower:
+                nfc = NF()
+                m = {}
+                for x in subterms(goal):
+                    if x[0] in ('imin', 'isatsub'):
+                        y = int_simplify(x, nfc, lower)
+                        if y != x:
+                            m[x] = y
+                if m:
+                    g2 = subst_term(goal, m)
+                    if g2 != goal:
+                        return entails(facts, simp(g2, {}), depth + 1)
+        except Exception:
+            pass
+    if goal[0] == 'icmp' and goal[1] == 'ne' and goal[3] == ('ic', 0) and goal[2][0] in ('imin', 'isatsub', 'len', 'i+', 'i-', 'firstidx', 'lastidx', 'slen'):
+        # a length-like (unsigned) quantity is non-zero iff it is at least one
+        return entails(facts, ('icmp', 'ge', goal[2], ('ic', 1)), depth)
     if goal[0] == 'and':
         return entails(facts, goal[1], depth) and entails(facts, goal[2], depth)
     if goal[0] == 'sel':
@@ -399,6 +430,53 @@ def loop_invariants(it, lp):
                 inv.remove((op, v, B))
                 changed = True
     out = [('icmp', op, v, B) for op, v, B in inv]
+    # a vector that grows by at most one element per step while the counting cursors together advance by at least one
+    # stays no longer than they have counted:  len(v) − len(v₀) ≤ Σ (cᵢ − cᵢ₀)
+    from ..values import SeqSym as _SeqSym
+    ints = [(v, init, backs) for v, (init, backs) in cursors.items()
+            if isinstance(init, tuple) and all(isinstance(nv, tuple) for _b, nv in backs)]
+    for r, p, fv, iv in lp.carried:
+        if not (isinstance(fv, _SeqSym) and ints and lp.back_states):
+            continue
+        try:
+            l_head = it.seq_len(fv)
+            l_init = it.seq_len(iv)
+        except Unsupported:
+            continue
+        if not (isinstance(l_head, tuple) and isinstance(l_init, tuple)):
+            continue
+        total = None
+        total0 = None
+        for v, init, _b in ints:
+            total = v if total is None else it.iadd(total, v)
+            total0 = init if total0 is None else it.iadd(total0, init)
+        rel = ('icmp', 'le', it.iadd(l_head, total0), it.iadd(l_init, total))
+        inv_facts = set(out)
+        ok = True
+        for k, bs in enumerate(lp.back_states):
+            try:
+                l_back = it.seq_len(it.read(bs, r, p))
+            except Unsupported:
+                ok = False
+                break
+            tb = None
+            for v, init, backs in ints:
+                nv = dict((id(b_), x_) for b_, x_ in backs).get(id(bs))
+                if nv is None:
+                    ok = False
+                    break
+                tb = nv if tb is None else it.iadd(tb, nv)
+            if not ok or not isinstance(l_back, tuple):
+                ok = False
+                break
+            base = set(bs.facts) | inv_facts | {rel}
+            for l in bs.guard:
+                base.add(l[0] if l[1] else mk_not(l[0]))
+            if not entails(base, ('icmp', 'le', it.iadd(l_back, total0), it.iadd(l_init, tb))):
+                ok = False
+                break
+        if ok:
+            out.append(rel)
     # cursors that always move together keep their distance (`enumerate` counter and slice cursor, zipped iterators)
     from ..terms import NF
     nf = NF()
@@ -473,12 +551,52 @@ def family_fn(fn):
     return [base]
 
 
+def float_facts_unsat(facts):
+    """are the path's conditions over float comparisons propositionally unsatisfiable (truth table with the order theory
+    of each compared pair; a comparison that holds implies its operands are not NaN)?"""
+    from .boollogic import implies
+    fs = [f for f in facts if isinstance(f, tuple) and any(x[0] in ('fcmp', 'isnan') for x in subterms(f))]
+    if not fs:
+        return False
+    g = None
+    for f in fs:
+        g = f if g is None else ('and', g, f)
+    links = None
+    seen = set()
+    for f in fs:
+        for x in subterms(f):
+            if x[0] == 'fcmp' and x[1] != 'ne' and x not in seen:
+                seen.add(x)
+                for side in (x[2], x[3]):
+                    if side[0] != 'fc':
+                        l_ = ('or', ('not', x), ('not', ('isnan', side)))
+                        links = l_ if links is None else ('and', links, l_)
+                # against a literal, the comparison is unordered exactly when the other operand is NaN
+                for var, lit in ((x[2], x[3]), (x[3], x[2])):
+                    if lit[0] == 'fc' and var[0] != 'fc':
+                        u_ = ('unord', var, lit)
+                        l_ = ('and', ('or', ('isnan', var), ('not', u_)), ('or', ('not', ('isnan', var)), u_))
+                        links = l_ if links is None else ('and', links, l_)
+    r = implies(g if links is None else ('and', g, links), FALSE)
+    return r is True
+
+
 def classify(it, s, invariants):
     """-> (class, explanation) or (None, reason)"""
     cond = s['cond']
     facts = set(s['facts'])
     for lid in s['loops']:
         facts |= set(invariants.get(lid, []))
+    # a site on a way out of a loop (`loop { … return … }`, the failure arm of a debug_assert) is recorded after the loop's
+    # blocks; its facts still speak about the loop's head symbols, for which the invariants hold at every head state
+    _mentioned = set()
+    for f_ in list(facts) + [cond]:
+        if isinstance(f_, tuple):
+            for x in subterms(f_):
+                if x[0] == 'sym' and (id(it), x) in invariants:
+                    _mentioned.add(x)
+    for x in _mentioned:
+        facts |= set(invariants[(id(it), x)])
     fn = s['fn']
     fam = family_fn(fn)
     if len(fam) >= 1 and all(x.endswith(('>::add', '>::sub')) for x in fam):
@@ -491,12 +609,17 @@ def classify(it, s, invariants):
     if kind == 'explicit-panic':
         lf = input_len_fact(facts)
         base = fn.split('::{closure')[0]
+        if base not in DOC_MIN and fam and all(x in DOC_MIN for x in fam) and len({DOC_MIN[x] for x in fam}) == 1:
+            # a private worker that only the documented entry point calls carries that entry point's input check
+            base = fam[0]
         if base in DOC_MIN and len(lf) >= 1 and all(c == DOC_MIN[base][1] for _, c in lf):
             return 'DOC', 'documented rejection: ' + DOC_MIN[base][0]
         if base.endswith(EMPTY_OK_SUFFIX) and 'iecewise' in base and lf and all(c == 1 for _, c in lf):
             return 'DOC', 'documented rejection: empty piecewise function'
         if entails(facts, ('icmp', 'ge', ('ic', 0), ('ic', 1))):
             return 'ARITH', 'unreachable: the conditions on the path to it contradict each other (linear arithmetic)'
+        if float_facts_unsat(facts):
+            return 'ARITH', 'unreachable: the float comparisons on the path to it contradict each other (order of one pair of floats, NaN fails every comparison)'
         return None, 'explicit panic reachable under %s' % [term_str(f)[:80] for f in list(facts)[:4]]
     if kind in ('unwrap', 'expect') and isinstance(cond, tuple) and cond[0] == 'not' and cond[1][0] == 'unord':
         a, b = cond[1][1], cond[1][2]
@@ -524,8 +647,12 @@ def classify(it, s, invariants):
     return None, 'not discharged: %s under %s' % (term_str(cond)[:120], [term_str(f)[:60] for f in list(facts)[:5]])
 
 
+ENTERED_FROM = {}
+
+
 def run_all(cx):
     CALLERS.clear()
+    ENTERED_FROM.clear()
     """analyse every hand-written function (T unbound); returns (sites, entered, problems, per-fn interps)"""
     sites = []
     entered = set()
@@ -559,9 +686,15 @@ def run_all(cx):
         extra_closure_steps(cx, f, it, ret, st, args, problems)
         for lp in it.loops:
             invariants[id(lp)] = loop_invariants(it, lp)
+            for inv_ in invariants[id(lp)]:
+                for side in set(subterms(inv_)):
+                    if side[0] == 'sym' and '@loop#' in side[1]:
+                        invariants.setdefault((id(it), side), []).append(inv_)
         for s in it.sites:
             sites.append((it, s))
         entered |= it.entered
+        for e_ in it.entered:
+            ENTERED_FROM.setdefault(e_.split('::{closure')[0], set()).add(f['path'])
         for caller, callee, line in it.trace_calls:
             CALLERS.setdefault(callee, set()).add(caller)
     # a body that cannot be analysed on its own (e.g. const-generic helper) but was analysed inside a caller is covered
@@ -715,7 +848,14 @@ def extra_closure_steps(cx, f, it, ret, st, args, problems):
 
 def private_helper_in_context(it, problems):
     f = getattr(it, 'root_fn', None)
-    if f is None or f.get('kind') != 'Fn' or f.get('pub'):
+    if f is None or f.get('pub'):
+        return False
+    if f.get('kind') == 'AssocFn':
+        # a private inherent method (not a trait impl's method, which is as visible as the trait)
+        par = f.get('parent_impl')
+        if not par or ' as ' in str(par):
+            return False
+    elif f.get('kind') != 'Fn':
         return False
     callers = {c.split('::{closure')[0] for c in CALLERS.get(f['path'], ())} - {f['path']}
     if not callers:
@@ -763,7 +903,10 @@ def check_inventory(cx, rep):
         if prev is None or (prev[0] is not None and cls is None):
             seen[k] = (cls, why, s)
     for k, s in ctx_skipped.items():
-        roots = reached.get((s['fn'], s['line'], s['kind']), set()) - {s['fn'].split('::{closure')[0]}
+        base_ = s['fn'].split('::{closure')[0]
+        roots = reached.get((s['fn'], s['line'], s['kind']), set()) - {base_}
+        # the helper was interpreted inside other functions: a site those runs never came to is not reachable from them
+        roots |= ENTERED_FROM.get(base_, set()) - {base_}
         if not roots:
             # the helper's site was never seen from a caller: nothing decided it
             rep.ob('panic', 'ctx:%s' % (k,), False, 'site of a private helper that no analysed caller reaches', fn=s['fn'], line=s['line'], key=k)
